@@ -472,8 +472,9 @@ func (analyser *BurndownAnalysis) Merge(branches []core.PipelineItem) {
 
 // Hibernate compresses the bound RBTree memory with the files.
 func (analyser *BurndownAnalysis) Hibernate() error {
+	size := analyser.fileAllocator.Size()
 	analyser.fileAllocator.Hibernate()
-	if analyser.HibernationToDisk {
+	if analyser.HibernationToDisk && size > 0 && size >= analyser.fileAllocator.HibernationThreshold {
 		file, err := ioutil.TempFile(analyser.HibernationDirectory, "*-hercules.bin")
 		if err != nil {
 			return err
